@@ -26,6 +26,7 @@ N = param('N', 2)
 KIND = param('kind', 0)
 # known finding C15-F16: a single quote in DESTDIR / an install directory breaks '$(DESTDIR)$(dir)/x'
 KF_QUOTE = param('kf_quote', False)
+NSEQ = param('NSEQ', 3)
 
 
 def _mkenv(backend):
@@ -277,6 +278,100 @@ def n_install_ninja(sym: str) -> bool:
 
 
 from typing import List
+
+
+def h_header_dir(s: str) -> bool:
+    """an installed header directory with files in nested subdirectories (include/a.h,
+    include/<s>/b.h, include/det/in/c.h): install copies them into the include root keeping the
+    relative paths (doppel -ipN -C <dir> <relative paths> <dest>), and uninstall removes exactly
+    the files that command creates
+    pre: len(s) == N and no_ctl(s) and _name_ok(s)
+    pre: not (KF_QUOTE and chr(39) in s)
+    post: _
+    """
+    env = ENV
+    build = BuildInputs(env, Path('build.bfg', Root.srcdir))
+    rels = ['a.h', s + '/b.h', 'det/in/c.h']
+    files = [ft.HeaderFile(_mkpath('include/' + r, Root.srcdir), 'c') for r in rels]
+    dpath = _mkpath('include', Root.srcdir)
+    dpath.directory = True
+    d = ft.HeaderDirectory(dpath, files, langs=['c'])
+    build['install'].add(d)
+    mk = Makefile('build.bfg', destdir=True)
+    binstall.make_install_rule(build, mk, env)
+    cmdline = (('DESTDIR', '/stage'), ('srcdir', '/srcdir'))
+    inst = _recipe_argvs(mk, 'install', cmdline)
+    unin = _recipe_argvs(mk, 'uninstall', cmdline)
+    if inst is None or unin is None or len(inst) != 1 or len(unin) != 1:
+        return R(False)
+    a = inst[0]
+    dest = '/stage/usr/local/include'
+    ok = a[0] == 'doppel' and '-C' in a and a[-1] == dest
+    if not ok:
+        return R(False)
+    k = a.index('-C')
+    ok = a[k + 1] == '/srcdir/include' and a[k + 2:-1] == rels and 'N' in a[k - 1] and 'p' in a[k - 1]
+    created = [dest + '/' + r for r in a[k + 2:-1]]
+    ok = ok and unin[0][:2] == ['rm', '-f'] and unin[0][2:] == created
+    return R(ok)
+
+
+from bfg9000.tools import patchelf as _patchelf
+from bfg9000 import options as _opts
+
+
+def x_post_install(seq: List[int]) -> bool:
+    """the run-time search path of an installed program is rewritten (patchelf --set-rpath) exactly
+    when its build-tree value differs from the installed one: some project shared library on the
+    link line (build-relative $ORIGIN path vs. installed libdir) or some rpath_dir that does not
+    apply in both situations -- wherever those options stand in the list; the new value lists the
+    installed directories in option order
+    pre: 1 <= len(seq) <= NSEQ and all(0 <= k < 4 for k in seq)
+    post: _
+    """
+    env = ENV
+    lib = ft.SharedLibrary(_mkpath('sub/libfoo.so'), 'elf', 'c')
+    prog = ft.Executable(_mkpath('bin/prog'), 'elf', 'c')
+    db = binstall.InstallOutputs(env)
+    db.add(prog)
+    db.add(lib)
+    p1 = Path('/opt/one', Root.absolute)
+    p2 = Path('/opt/two', Root.absolute)
+    options = []
+    want = []
+    changed = False
+    for k in seq:
+        if k == 0:
+            options.append(_opts.lib(lib))
+            want.append('lib')
+            changed = True
+        elif k == 1:
+            options.append(_opts.rpath_dir(p1))
+            want.append('one')
+        elif k == 2:
+            options.append(_opts.rpath_dir(p2, _opts.RpathWhen.installed))
+            want.append('two')
+            changed = True
+        else:
+            options.append(_opts.rpath_dir(p2, _opts.RpathWhen.uninstalled))
+            changed = True
+    r = _patchelf.post_install(env, options, prog, db)
+    if not changed:
+        return R(r is None)
+    if r is None or len(r) != 4 or r[1] != '--set-rpath':
+        return R(False)
+    got = []
+    val = r[2]
+    bits = val.bits if hasattr(val, 'bits') else [val]
+    for b in bits:
+        if isinstance(b, Path):
+            got.append('lib' if b.root == InstallRoot.libdir else 'one' if b.suffix == '/opt/one'
+                       else 'two')
+    uniq = []
+    for w in want:
+        if w not in uniq:
+            uniq.append(w)
+    return R(got == uniq and r[3] == db.host[prog].path)
 
 
 def d_dep_closure(edges: List[bool], explicit: List[bool]) -> bool:
